@@ -547,6 +547,28 @@ func init() {
 		fc.facts = append(fc.facts, Fact{blk: fc.curBlk, seq: fc.seq, t: TFalse, isExit: true})
 		return Value{K: KTuple}
 	})
+	// sync.WaitGroup: the counter is not modelled; the fork-join shape (Add(n) before the
+	// spawning loop, one deferred Done per worker, Wait after the loop) is checked
+	// syntactically by forkJoinShape, and under that shape the three calls have no effect
+	// on the modelled state.
+	for _, n := range []string{"Add", "Done", "Wait"} {
+		isWait := n == "Wait"
+		reg("(*sync.WaitGroup)."+n, pureEff(), func(fc *FnCtx, cc *ssa.CallCommon, args []Value, pos token.Pos, res ssa.Value) Value {
+			if isWait && fc.fjPhi != nil {
+				env := fc.newEnv(fc.cur)
+				if sv, err := fc.specExpr(env, fc.fjHi); err == nil {
+					if hi, ok := fc.toIntTerm(env.coerce(sv, specIntType)); ok {
+						fc.oblige("forkjoin", "every worker index below hi has been spawned when Wait is reached", pos,
+							Ge(fc.toIndex(fc.val(fc.fjPhi).T, fc.fjPhi.Type()), hi))
+					}
+				}
+			}
+			return Value{K: KTuple}
+		})
+	}
+	reg("runtime/pprof.StopCPUProfile", pureEff(), func(fc *FnCtx, cc *ssa.CallCommon, args []Value, pos token.Pos, res ssa.Value) Value {
+		return Value{K: KTuple}
+	})
 	reg("runtime.GOMAXPROCS", pureEff(), func(fc *FnCtx, cc *ssa.CallCommon, args []Value, pos token.Pos, res ssa.Value) Value {
 		n := fc.freshConst("gomaxprocs", SInt)
 		fc.assume(And(Ge(n, IntLit(1)), Le(n, IntLit(1<<20))))
@@ -595,7 +617,30 @@ func (e *Engine) typeIDByName(name string) int64 {
 	if id, ok := e.typeIDs[name]; ok {
 		return id
 	}
-	id := int64(len(e.typeIDs) + 1)
+	id := e.stableID(name, e.typeIDs)
 	e.typeIDs[name] = id
 	return id
+}
+
+// stableID: an identifier that depends only on the name (FNV-1a, linear probing on the rare
+// collision), so that a query does not depend on the order in which the engine met the names.
+func (e *Engine) stableID(name string, taken map[string]int64) int64 {
+	h := uint32(2166136261)
+	for i := 0; i < len(name); i++ {
+		h ^= uint32(name[i])
+		h *= 16777619
+	}
+	id := int64(h%1000000000) + 1000
+	for {
+		clash := id == 999999
+		for _, v := range taken {
+			if v == id {
+				clash = true
+			}
+		}
+		if !clash {
+			return id
+		}
+		id++
+	}
 }
